@@ -637,7 +637,26 @@ def _bypass_idiom(fx, kind, b, bb, t):
                        _same_local_root(b, b.term(o[1])['args'][0], t['args'][0]) for o in asp)
             from .protect import _on_cas_success
             if asp and same and _on_cas_success(b, s, bb):
-                return True, 'into_ptr(x) discarded after the successful exchange that installed as_ptr(&x) (%s)' % s.loc
+                # FORGET-PROMPTLY: until into_ptr(x) runs, x is an owned value whose pointer is already published;
+                # nothing that can unwind (and thereby drop x) may run in between
+                between = {x for x in range(b.n) if x != bb and not b.is_cleanup(x) and _on_cas_success(b, s, x)
+                           and bb in b.reach_from(x, unwind=False) and not b.dominates(bb, x)}
+                mu, _d = may_unwind_bodies(fx)
+                risky = []
+                for x in sorted(between):
+                    tt = b.term(x)
+                    if tt['k'] == 'call':
+                        ck = tt['callee'].get('resolved') or tt['callee'].get('key')
+                        if user_call_kind(tt) or ck in mu or ((tt['callee'].get('trait') or '').startswith('arc_swap::') and not tt['callee'].get('resolved')
+                                                                and not (tt['callee'].get('trait') or '').endswith('ref_cnt::RefCnt')
+                                                                and any(k2 in mu for k2 in [y.key for y in fx.lib.bodies if y.name == tt['callee'].get('name') and y.j.get('impl_trait') == tt['callee'].get('trait')])):
+                            risky.append('%s at %s' % (tt['callee'].get('name'), b.loc(x)))
+                    elif tt['k'] == 'drop' and tt.get('has_param'):
+                        risky.append('drop at %s' % b.loc(x))
+                if risky:
+                    return False, 'between the successful exchange (%s) and into_ptr(x) the value x is still owned although its pointer is published; ' \
+                                  'a panic in %s would drop it (double release)' % (s.loc, ', '.join(risky))
+                return True, 'into_ptr(x) discarded right after the successful exchange that installed as_ptr(&x) (%s)' % s.loc
         return False, 'into_ptr result discarded without a dominating successful exchange of the same value'
     return False, 'ownership-bypassing primitive outside the admitted idioms'
 
